@@ -215,8 +215,25 @@ class LoopCtx:
         return self.st.snapshot()
 
 
-def oblige_any(st, name, f):
-    """f: formula | bool | str (structural failure message) | None"""
+class At:
+    """a clause about the state at an earlier point of the path (a snapshot taken there): the obligation is posed under
+    the path condition *as it was at that point* plus the definitions introduced while the clause was built.  Facts
+    learnt later on the path (branch decisions after the point, posts of later callees) are irrelevant to whether the
+    state at the point can violate the clause; leaving them out only weakens the hypotheses (never unsound for a
+    proof) and keeps the query small."""
+
+    def __init__(self, snap, formula):
+        self.snap, self.formula = snap, formula
+
+
+def oblige_any(st, name, f, defs_from=None):
+    """f: formula | bool | str (structural failure message) | At | None"""
+    if isinstance(f, At):
+        if f.snap.pc_len is None or isinstance(f.formula, (bool, str)) or f.formula is None:
+            return oblige_any(st, name, f.formula)
+        pc = st.pc[:f.snap.pc_len] + (st.pc[defs_from:] if defs_from is not None and defs_from >= f.snap.pc_len else [])
+        st.oblige(name, f.formula, pc=pc)
+        return
     if f is None or f is True:
         st.oblige(name, True)
     elif f is False:
@@ -567,8 +584,9 @@ def verify_function(repo, registry, models_factory, c, base_axioms, options=None
                 if case.modifies is not None:
                     # use the union (frame is checked against what any matching case allows)
                     mods = list(mods) + list(case.modifies(it, pre, a))
-        for n, f in c.effects_spec(it, pre, post, a, outcome, value, effects):
-            oblige_any(st, f'{c.name}#trace[{n}]', f)
+        defs_from = len(st.pc)
+        for n, f in list(c.effects_spec(it, pre, post, a, outcome, value, effects)):
+            oblige_any(st, f'{c.name}#trace[{n}]', f, defs_from)
         # frame
         allowed = set()
         for ref, field in mods:
